@@ -258,7 +258,7 @@ def run_queries(tree, ts, q, discrete, want_arrays):
                 except Exception as e:
                     obs["fast"] = err_obs(e)
                 obs["fast_bufsize"] = proxy.sizes[-1] if proxy.sizes else None
-            if want_arrays:
+            if want_arrays and p >= 0:
                 nodes = [int(u) for u in tree.nodes(r)]
                 obs["kids"] = [[u, [int(c) for c in tree.children(u)]] for u in nodes]
                 obs["arrays"] = {
@@ -269,6 +269,8 @@ def run_queries(tree, ts, q, discrete, want_arrays):
                     "flags": [int(x) for x in ts.nodes_flags],
                 }
                 obs["root_parent"] = int(tree.parent(r))
+                obs["num_samples"] = int(ts.num_samples)
+                obs["num_edges"] = int(tree.num_edges)
                 # branch tokens by the implementation's own number rendering (the same format
                 # call as text_formats._build_newick); opaque to the model
                 obs["tokens"] = [[int(tree.parent(u)), u, "{0:.{1}f}".format(tree.branch_length(u), p)]
@@ -306,6 +308,13 @@ def judge(parent, flags, times, discrete, q, obs, need_fast_general=True):
     p = q["precision"] if q["precision"] is not None else (0 if discrete else 17)
     ibl = True if q["ibl"] is None else q["ibl"]
     lab = q["labels"]
+    fast_applies = ibl and lab in ("default", "ms")
+    if p < 0 and ibl and (fast_applies or ch[root]):
+        # not a precision: refused wherever a number would have to be rendered (ValueError)
+        o = obs["out"]
+        if not isinstance(o, dict):
+            fails.append(("newick-args:negative-precision-accepted", "precision=%d gave %r" % (p, o[:60])))
+        return fails
     if lab == "default":
         label = lambda u: ("n%d" % u) if flags[u] & 1 else ""
     elif lab == "ms":
@@ -319,6 +328,8 @@ def judge(parent, flags, times, discrete, q, obs, need_fast_general=True):
 
     def check_string(name, o):
         if isinstance(o, dict):
+            if p > 17 and o["err"] == "ValueError" and (name == "fast" or (name == "as_newick" and fast_applies)):
+                return          # Tree_get_newick documents 0..17 for the C writer
             if o["err"] == "LibraryError" and "buffer" in o["msg"].lower():
                 fails.append(("newick-buffer:" + buffer_class(parent, flags, times, root),
                               "%s: %s (root=%d precision=%d, %d nodes)" % (name, o["msg"], root, p, len(parent))))
@@ -405,13 +416,18 @@ def coq_newick_term(q, obs, discrete, N):
     if "fast" in obs:
         f = obs["fast"]
         if isinstance(f, dict):
-            if not (f["err"] == "LibraryError" and "buffer" in f["msg"].lower()):
+            if f["err"] == "ValueError" and p > 17:
+                fast = "None"
+            elif not (f["err"] == "LibraryError" and "buffer" in f["msg"].lower()):
                 return None
-            fast = "(Some (FastOverflow %s))" % cz(obs["fast_bufsize"])
+            else:
+                fast = "(Some (FastOverflow %s))" % cz(obs["fast_bufsize"])
         else:
             fast = "(Some (FastOk %s %s))" % (cz(obs["fast_bufsize"]), cstr(f))
-    return ("c18_check_newick (mk_ctree %s %s %s %s %s) %s %s %s %s %s %s %s %s %s %s %s"
+    return ("(let a := mk_ctree %s %s %s %s %s in c18_check_size_bound a %s %s && "
+            "c18_check_newick a %s %s %s %s %s %s %s %s %s %s %s)"
             % (clist(a["lc"]), clist(a["rc"]), clist(a["ls"]), clist(a["par"]), clist(a["flags"]),
+               cz(obs["num_samples"]), cz(obs["num_edges"]),
                cz(N), crose(r, kids), cz(obs["root_parent"]), toks, labs, "true" if ibl else "false",
                cz(p), fast, cstr(obs["general"]), cz(obs["W"]), cout(q, obs)))
 
@@ -425,6 +441,8 @@ def cout(q, obs):
         return "(OutStr %s)" % cstr(o)
     if o["err"] == "LibraryError" and "buffer" in o["msg"].lower():
         return "OutOverflow"
+    if o["err"] == "ValueError":
+        return "OutValueError"
     return "OutSkip"
 
 
@@ -468,6 +486,7 @@ def shape(rng, kind, n):
 
 
 TIME_SCHEMES = ["int", "int", "bigint", "frac01", "frac", "dyadic", "neg_int", "neg_frac", "huge", "tinygap",
+                "halves", "huge19",
                 "pow10", "mixed"]
 
 
@@ -504,6 +523,15 @@ def make_times(rng, scheme, n):
     if scheme == "pow10":
         top = rng.choice([10.0, 100.0, 1000.0, 1.0])
         return [top * i / max(n - 1, 1) for i in range(n)] if n > 1 else [top]
+    if scheme == "halves":              # branch lengths that are exact ties at precision 0 (0.5, 1.5, 2.5 ...)
+        t, out = 0.0, []
+        for i in range(n):
+            out.append(t)
+            t += rng.choice([0.5, 1.5, 2.5, 3.5, 0.125, 0.375, 1.0])
+        return out
+    if scheme == "huge19":              # beyond 2^63 / 1e19: 20 integer digits per branch length
+        base = rng.choice([1e19, 2.0 ** 64, 1.2345678901234567e19])
+        return [base * i / 4.0 for i in range(n - 1)] + [base * n] if n > 1 else [base]
     if scheme == "mixed":
         return [float(i) for i in range(n - 1)] + [n - 1 + 0.5]
     raise ValueError(scheme)
@@ -545,9 +573,15 @@ LABEL_ALPHABET = "abcXYZ019_-. '[]{}|/\\#&*"
 
 def make_query(rng, tc, root_mode=None):
     n = tc["n"]
-    root_mode = root_mode or rng.choice(["none", "none", "any", "any", "internal"])
+    root_mode = root_mode or rng.choice(["none", "none", "any", "any", "internal", "a_root", "nonroot"])
     root = None
-    if root_mode == "any":
+    if root_mode == "a_root":           # [t.as_newick(root=r) for r in t.roots] on multi-root trees
+        rs = roots_of(tc["parent"], tc.get("flags", [1] * n))
+        root = rng.choice(rs) if rs else rng.randrange(n)
+    elif root_mode == "nonroot":        # a node that has a parent (branch above it must not be printed)
+        cs = [u for u in range(n) if tc["parent"][u] != NULL]
+        root = rng.choice(cs) if cs else rng.randrange(n)
+    elif root_mode == "any":
         root = rng.randrange(n)
     elif root_mode == "internal":
         ch = children_of(tc["parent"])
@@ -622,7 +656,10 @@ class Newick(Family):
         for _ in range(1500 if quick else 12000):
             n = rng.choice([1, 2, 3, 5, 8, 9, 10, 11, 12, 20, 33]) if rng.random() < 0.8 else rng.randrange(1, 60)
             tc = make_tree_case(rng, n)
-            yield {"tree": tc, "q": make_query(rng, tc)}
+            q = make_query(rng, tc)
+            if rng.random() < 0.04:
+                q["precision"] = rng.choice([18, 25, -1, -3])
+            yield {"tree": tc, "q": q}
         # --- sizes up to 2000: chains, stars, random x schemes -----------------------
         sizes = [99, 100, 101, 500, 999, 1000, 1001, 2000] if quick else [99, 100, 101, 250, 500, 999, 1000, 1001, 1500, 2000]
         for n in sizes:
@@ -799,7 +836,7 @@ class NewickTs(Family):
             bps = gen_ts.breakpoints(desc)
             x = rng.choice(bps[:-1])
             n = len(desc["nodes"])
-            tc = {"n": n, "parent": gen_ts.parent_at(desc, x)}
+            tc = {"n": n, "parent": gen_ts.parent_at(desc, x), "flags": [r[0] for r in desc["nodes"]]}
             q = make_query(rng, tc)
             yield {"desc": desc, "x": x, "q": q}
 
@@ -837,6 +874,26 @@ class NewickTs(Family):
 # ----------------------------------------------------------------------------------
 # nexus / fasta
 # ----------------------------------------------------------------------------------
+def transport_failures(desc, opts, seqs, default_mdc, prefix):
+    """reference_sequence / missing_data_character must reach the output: every position that is
+    not a site carries the reference base (or the missing-data character when no reference is
+    given), whatever alignments() does at the sites (C03)."""
+    s = desc["scale"]
+    L = int(desc["L"] * s)
+    sites = {int(r[0] * s) for r in desc["sites"]}
+    ref = opts.get("reference_sequence")
+    mdc = opts.get("missing_data_character")
+    mdc = default_mdc if mdc is None else mdc
+    want = [(ref[j] if ref is not None else mdc) for j in range(L)]
+    for a in seqs:
+        if len(a) != L:
+            return [(prefix + "-length", "sequence of length %d for L=%d" % (len(a), L))]
+        for j in range(L):
+            if j not in sites and a[j] != want[j]:
+                return [(prefix + "-reference-transport", "position %d is %r, reference/missing char is %r" % (j, a[j], want[j]))]
+    return []
+
+
 def has_isolated_sample(desc):
     bps = gen_ts.breakpoints(desc)
     flags = [r[0] for r in desc["nodes"]]
@@ -985,6 +1042,8 @@ class Nexus(Family):
                    ["n%d %s" % (u, a) for u, a in zip(samples, al if samples else [])] + [";"]
             if bd["DATA"] != want:
                 fails.append(("nexus-data", "DATA block %r, wanted %r" % (bd["DATA"][:6], want[:6])))
+            rows = [ln.split(" ", 1)[1] for ln in bd["DATA"][3:-1] if " " in ln]
+            fails += transport_failures(desc, opts, rows, "?", "nexus")
         if inc_trees:
             prec = opts["precision"]
             pp = prec if prec is not None else (0 if dg else 17)
@@ -1132,6 +1191,7 @@ class Fasta(Family):
         if [r[0] for r in recs] != ["n%d" % u for u in samples]:
             fails.append(("fasta-headers", "%r for samples %r" % ([r[0] for r in recs], samples)))
             return fails
+        fails += transport_failures(desc, case["opts"], ["".join(ls) for _h, ls in recs], "N", "fasta")
         for (h, ls), a in zip(recs, al):
             if "".join(ls) != a:
                 fails.append(("fasta-sequence", "%s: lines concatenate to %r, alignment is %r" % (h, "".join(ls)[:40], a[:40])))
@@ -1219,17 +1279,17 @@ class Wrap(Family):
 # exact arithmetic: integer times (any precision) and dyadic times k/8 (precision >= 3) --
 # the model computes the branch tokens itself (print_fixed), nothing is passed in opaque
 # ----------------------------------------------------------------------------------
-def scaled_times(times, p):
-    out = []
+def scaled_times(times):
+    """(q, [x]) with time = x / 10^q exactly: q = 0 for integer times, 3 for multiples of 1/8."""
+    es = []
     for t in times:
         e = t * 8
         if not float(e).is_integer() or abs(e) >= 2 ** 50:
             return None
-        e = int(e)
-        if (e * 10 ** p) % 8:
-            return None
-        out.append(e * 10 ** p // 8)
-    return out
+        es.append(int(e))
+    if all(e % 8 == 0 for e in es):
+        return 0, [e // 8 for e in es]
+    return 3, [e * 125 for e in es]
 
 
 class NewickExact(Newick):
@@ -1239,7 +1299,8 @@ class NewickExact(Newick):
     def generate(self, rng, tier):
         for _ in range(700 if tier == "quick" else 8000):
             n = rng.choice([1, 2, 3, 5, 8, 9, 10, 11, 12, 20, 33])
-            scheme = rng.choice(["int", "int", "bigint", "dyadic", "dyadic", "neg_int", "neg_dyadic", "pow10i"])
+            scheme = rng.choice(["int", "int", "bigint", "dyadic", "dyadic", "neg_int", "neg_dyadic", "pow10i",
+                                 "halves", "halves"])
             tc = make_tree_case(rng, n, scheme="int")
             # re-time: strictly increasing in rank = increasing with the old integer times
             order = sorted(range(n), key=lambda u: tc["times"][u])
@@ -1257,6 +1318,11 @@ class NewickExact(Newick):
                 vals = [float(i - off) for i in range(n - 1)] + [float(rng.choice([0, 1, 5]))]
             elif scheme == "neg_dyadic":
                 vals = [(i - n) / 8.0 for i in range(n)]
+            elif scheme == "halves":
+                vals, t0 = [], 0.0
+                for i in range(n):
+                    vals.append(t0)
+                    t0 += rng.choice([0.5, 1.5, 2.5, 0.125, 0.375, 0.625, 9.5, 99.5])
             else:
                 top = rng.choice([1, 10, 100, 1000])
                 vals = sorted(set([float(top)] + [float(rng.randrange(0, top)) for _ in range(n - 1)]))
@@ -1268,7 +1334,7 @@ class NewickExact(Newick):
             tc["scheme"] = scheme
             q = make_query(rng, tc)
             allint = all(is_int(t) for t in tc["times"])
-            q["precision"] = rng.choice([None, 0, 1, 3, 17] if allint else [None, 3, 5, 17])
+            q["precision"] = rng.choice([None, 0, 1, 2, 3, 5, 17])      # p < 3 on k/8 times: half-even ties
             yield {"tree": tc, "q": q}
 
     def coq_check(self, case, obs):
@@ -1277,9 +1343,10 @@ class NewickExact(Newick):
         if "arrays" not in obs or obs.get("resolved_root") is None or isinstance(obs.get("general"), dict):
             return None
         p = q["precision"] if q["precision"] is not None else (0 if discrete else 17)
-        st = scaled_times(tc["times"], p)
-        if st is None:
+        sc = scaled_times(tc["times"])
+        if sc is None or p < 0:
             return None
+        sq, st = sc
         a = obs["arrays"]
         kids = {u: ks for u, ks in obs["kids"]}
         r = obs["resolved_root"]
@@ -1300,9 +1367,9 @@ class NewickExact(Newick):
                 fast = "(Some (FastOverflow %s))" % cz(obs["fast_bufsize"])
             else:
                 fast = "(Some (FastOk %s %s))" % (cz(obs["fast_bufsize"]), cstr(f))
-        return ("c18_check_exact (mk_ctree %s %s %s %s %s) %s %s %s %s %s %s %s %s %s %s %s"
+        return ("c18_check_exact (mk_ctree %s %s %s %s %s) %s %s %s %s %s %s %s %s %s %s %s %s"
                 % (clist(a["lc"]), clist(a["rc"]), clist(a["ls"]), clist(a["par"]), clist(a["flags"]),
-                   cz(tc["n"]), crose(r, kids), cz(obs["root_parent"]), clist(st), labs,
+                   cz(tc["n"]), crose(r, kids), cz(obs["root_parent"]), cz(sq), clist(st), labs,
                    "true" if ibl else "false", cz(p), fast, cstr(obs["general"]), cz(obs["W"]), cout(q, obs)))
 
 
@@ -1366,7 +1433,69 @@ class BufSize(Family):
         return {"n": case["n"]}
 
 
-FAMILIES = [Newick, NewickExact, NewickTs, BufSize, Nexus, Fasta, Wrap]
+class NewickArgs(Family):
+    """root arguments that are not nodes: -1, the virtual root N, beyond.  Outside the property's
+    quantifier; recorded so that nothing but an exception (or, for the virtual root on the general
+    path, a string) comes back, and the C writer's own bounds check is tied to the model."""
+    name = "newick_args"
+    prelude = "From TskVerif Require Import Base.Common Gen.Generated C18.Model.\nOpen Scope Z_scope."
+    workers = 4
+
+    def generate(self, rng, tier):
+        for _ in range(60 if tier == "quick" else 600):
+            tc = make_tree_case(rng, rng.choice([1, 2, 3, 5, 9]), scheme="int")
+            q = make_query(rng, tc)
+            q["root"] = tc["n"] + rng.choice([-tc["n"] - 1, -tc["n"] - 4, 0, 0, 1, 7])
+            yield {"tree": tc, "q": q}
+
+    def observe(self, case):
+        import tskit
+        tc, q = case["tree"], case["q"]
+        ts = build_single_tree(tc)
+        tree = ts.first()
+        obs = {"lc": [int(x) for x in tree.left_child_array], "rc": [int(x) for x in tree.right_child_array],
+               "ls": [int(x) for x in tree.left_sib_array], "par": [int(x) for x in tree.parent_array],
+               "flags": [int(x) for x in ts.nodes_flags]}
+        try:
+            obs["out"] = tree.as_newick(root=q["root"], precision=q["precision"], node_labels=labels_arg(q, tskit),
+                                        include_branch_lengths=q["ibl"])
+        except Exception as e:
+            obs["out"] = err_obs(e)
+        try:
+            obs["fast"] = tree._ll_tree.get_newick(root=q["root"], precision=3, buffer_size=4096)
+        except Exception as e:
+            obs["fast"] = err_obs(e)
+        return obs
+
+    def oracle(self, case, obs):
+        n, root = case["tree"]["n"], case["q"]["root"]
+        o = obs["out"]
+        if root == n:
+            return []           # the virtual root: not a node, not covered by the property
+        if not isinstance(o, dict):
+            return [("newick-args:bad-root-accepted", "root=%d (N=%d) gave %r" % (root, n, o[:60]))]
+        return []
+
+    def coq_check(self, case, obs):
+        f = obs["fast"]
+        if not isinstance(f, dict) or case["q"]["root"] < 0:
+            return None         # negative ints are rejected while parsing the arguments
+        if "out of bounds" not in f["msg"].lower():
+            return None
+        return ("res_is_err (c_newick _ tok_sub (tok_print []) tok_tm (mk_ctree %s %s %s %s %s) %s %s false 3 4096) "
+                "c18_err_node_out_of_bounds"
+                % (clist(obs["lc"]), clist(obs["rc"]), clist(obs["ls"]), clist(obs["par"]), clist(obs["flags"]),
+                   cz(case["tree"]["n"]), cz(case["q"]["root"])))
+
+    def nontrivial(self, case, obs):
+        return True
+
+    def describe(self, case, obs):
+        o = obs["out"]
+        return {"root-N": case["q"]["root"] - case["tree"]["n"], "result": "str" if isinstance(o, str) else o["err"]}
+
+
+FAMILIES = [Newick, NewickExact, NewickTs, NewickArgs, BufSize, Nexus, Fasta, Wrap]
 
 NOT_COVERED = [
     "float <-> decimal rendering (printf %.*f, str.format) is trusted: the model takes branch tokens and the length W of the rendered maximal branch as opaque inputs (exact instance: integer / dyadic times)",
